@@ -1515,7 +1515,9 @@ RULE = ('tensor level: space.lincomb(a, x1, b, x2, out) on tensor spaces; every 
         'whole-array case per alias pattern and main dtype; the same with NaN in every buffer the call must not read and with NaN '
         'inside an operand (poisoned carrier option Q).  space level: 32 public operations (lincomb with and without '
         'b, multiply, divide, assign, copy, set_zero, + - * / with element and scalar, reflected and in-place forms, '
-        'neg, pos, **=) and 12 power-space broadcasting forms on tensor, uniform_discr and nested/power product '
+        'neg, pos, **=, ** with positive and negative exponents, no-out and element-method forms), every binary '
+        'operator (out-of-place, reflected, in-place) with the other operand given as plain data (nested list, nested '
+        'tuple, ndarray / list of ndarrays) and 12 power-space broadcasting forms on tensor, uniform_discr and nested/power product '
         'spaces (fixed list + random trees of depth <= 3, mixed float/int leaves), with `other is self`, shared '
         'components and poisoned temporaries.  Inputs are small integers / dyadic scalars so float arithmetic is '
         'exact; all buffers (not only out) are compared after the call.  A case is distinct by (operation, dtype or '
